@@ -566,7 +566,7 @@ def int_layouts(draw):
             pars.append(par)
         comps.append({"kind": kind, "idx": g, "pars": pars})
     return {"seed": draw(st.integers(0, 2**31)), "n": n, "comps": comps, "theta": theta,
-            "par_form": draw(st.sampled_from(["pyint", "int64", "int32", "int8", "uint8", "int16", "float32", "float16"])),
+            "par_form": draw(st.sampled_from(["pyint", "int64", "int32", "int8", "uint8", "int16", "float32", "float16", "float64"])),
             "theta_form": draw(st.sampled_from(["int64", "int32", "int64", "float64", "int8"])),
             "joint": draw(st.booleans())}
 
@@ -580,10 +580,19 @@ def make_form(kind, pars, idx, form):
 
     conv = (lambda v: [int(x) for x in v]) if form == "pyint" else (as_array if form != "float" else (lambda v: [float(x) for x in v]))
     if kind == "gauss":
-        return GaussianPrior(mean=conv([p[0] for p in pars]), sigma=conv([p[1] for p in pars]), variable_indices=list(idx))
-    if kind == "exp":
-        return ExponentialPrior(beta=conv([p[0] for p in pars]), variable_indices=list(idx))
-    return UniformPrior(lower=conv([p[0] for p in pars]), upper=conv([p[1] for p in pars]), variable_indices=list(idx))
+        args = {"mean": conv([p[0] for p in pars]), "sigma": conv([p[1] for p in pars])}
+        obj = GaussianPrior(variable_indices=list(idx), **args)
+    elif kind == "exp":
+        args = {"beta": conv([p[0] for p in pars])}
+        obj = ExponentialPrior(variable_indices=list(idx), **args)
+    else:
+        args = {"lower": conv([p[0] for p in pars]), "upper": conv([p[1] for p in pars])}
+        obj = UniformPrior(variable_indices=list(idx), **args)
+    # the arrays handed over are the caller's: it may re-use them (here: refill them) once the prior is built
+    for a in args.values():
+        if isinstance(a, np.ndarray) and a.flags.writeable:
+            a[...] = 3
+    return obj
 
 
 def body_int_forms(case, ctx):
